@@ -19,6 +19,9 @@ AMG_RELAX = ["damped_jacobi", "spai0", "gauss_seidel", "ilu0", "chebyshev"]
 PREC_RELAX = ["damped_jacobi", "spai0", "gauss_seidel", "ilu0", "iluk", "ilup", "ilut", "chebyshev", "spai1"]
 DRIVERS = ["reuse", "reuse_comp"] + ["reuse_amg_" + c for c in COARSENINGS]
 OPS = ("ramg.", "rprec", "rsky", "rdefl", "rcpr", "rschur", "rmbs")
+MODEL_GROUP = "reuse"          # coq/Extract_reuse.v + ocaml/reuse/ops_reuse.ml: second extracted model driver
+MODEL_SOLVERS = ["none", "cg", "richardson", "bicgstab", "gmres", "fgmres"]   # state-passing models ReuseProofs2/3.v
+MAX_MODEL_OUT = 120000
 TMO = 150   # a mutated smoother can make the exact rationals explode: bounded per shard
 
 _H = os.path.join(os.path.dirname(os.path.dirname(os.path.dirname(os.path.abspath(__file__)))), "harness")
@@ -190,11 +193,16 @@ def cases(tier, seed):
                     cmds = ["apply", "cycle", "dump"] + (["solve", "solveA", "msapply"] if solver != "none" else []) + ["rebuild"]
                     nlen = r.choice([3, 4, 5]) if (dbl or solver == "none") else r.choice([2, 3])
                     scr, kinds = script(r, n, rows, dbl, solver, cmds, rebuild_ok=True, nlen=nlen)
+                    if not dbl:   # the model run needs the transfer operators: the hierarchy is dumped first
+                        cnt, rest = scr.split(" ", 1); scr = "%d dump %s" % (int(cnt) + 1, rest); kinds = ["dump"] + kinds
                     side = kc.side_for(r, solver) if solver != "none" else "right"
                     damping = r.choice(["1/2", "3/4", "-", "1"])
-                    add(amg_line("%sa%d" % (pre, k), dbl, co, rx, cfg, allow, amg_cprm(r, co), damping, solver, side,
-                                 solver_prm(r, solver, dbl, heavy), n, rows, scr),
-                        obj="amg", coarsening=co, relax=rx, solver=solver, dbl=dbl, flavour=flavour, kinds=kinds)
+                    cprm = amg_cprm(r, co); sprm = solver_prm(r, solver, dbl, heavy)
+                    add(amg_line("%sa%d" % (pre, k), dbl, co, rx, cfg, allow, cprm, damping, solver, side, sprm, n, rows, scr),
+                        obj="amg", coarsening=co, relax=rx, solver=solver, dbl=dbl, flavour=flavour, kinds=kinds,
+                        model=(None if dbl or solver not in MODEL_SOLVERS else
+                               dict(co=co, rx=rx, cfg=cfg, allow=allow, cprm=cprm, damping=damping, solver=solver, side=side, prm=sprm,
+                                    n=n, rows=rows, scr=scr)))
     # ---- 2. relaxation as preconditioner
     for ri, rx in enumerate(PREC_RELAX):
         for rep in range(4 * mult):
@@ -282,9 +290,70 @@ def cases(tier, seed):
                     obj="make_block_solver", solver=solver, dbl=dbl, kinds=kinds)
     return out
 
+# ---------------------------------------------------------------- model object (make_solver<amg, S> with threaded state)
+def model_exe(ctx):
+    """the extracted model driver of group 'reuse' (built on first use; None if the build fails)"""
+    if "_reuse_model" not in ctx:
+        import vcheck
+        try:
+            ok, out = vcheck.coq_build(ctx["log"], None, MODEL_GROUP)
+            if not ok: raise RuntimeError("coq build for Extract_%s.v failed:\n%s" % (MODEL_GROUP, out[-2000:]))
+            ctx["_reuse_model"] = vcheck.build_model(ctx["log"], MODEL_GROUP)
+        except Exception as e:
+            ctx["_reuse_model"] = None; ctx["_reuse_model_err"] = str(e)[-3000:]
+    return ctx["_reuse_model"]
+
+def model_line(cid, m, one):
+    """msm line for an exact amg case from its meta and the ONE-object half of the implementation output
+    (first command = dump: the transfer operators of the hierarchy)"""
+    from props import amg_common as ac
+    ts, lv = ac.transfers_from_output(one)
+    if ts is None: return None
+    cf = m["cfg"]
+    damping = m["damping"]
+    if damping == "-": damping = fmt_q(F(0.72)) if m["rx"] == "damped_jacobi" else "1"
+    scale = "-"
+    if m["co"] == "aggregation":
+        import struct
+        oi = m["cprm"]["over_interp"]; oi = F(3, 2) if oi == "-" else F(oi)
+        f32 = struct.unpack("f", struct.pack("f", float(oi)))[0]
+        scale = fmt_q(F(struct.unpack("f", struct.pack("f", 1.0 / f32))[0]))     # 1 / prm.over_interp evaluated in float
+    tstoks = [str(len(ts))]
+    for t in ts:
+        if t is None: tstoks.append("0")
+        else: tstoks += ["1", fmt_crs(*t[0]), fmt_crs(*t[1])]
+    return " ".join([cid, "msm", m["rx"],
+                     " ".join(str(cf[k]) for k in ("coarse_enough", "direct_coarse", "max_levels", "npre", "npost", "ncycle", "pre_cycles")),
+                     str(m["allow"]), damping, scale, m["solver"], m["side"], kc.fmt_prm(**m["prm"]), crs(m["n"], m["rows"]),
+                     " ".join(tstoks), m["scr"]])
+
+def meta_from_line(l):
+    """meta of a replayed case line (the model comparison of exact amg lines needs the pieces of the line)"""
+    tk = l.split(" ")
+    m = dict(obj=tk[1])
+    if not tk[1].startswith("ramg."): return m
+    try:
+        co = tk[1][5:]; rx = tk[2]
+        cfg = dict(zip(("coarse_enough", "direct_coarse", "max_levels", "npre", "npost", "ncycle", "pre_cycles"), [int(x) for x in tk[3:10]]))
+        allow = int(tk[10]); cprm = dict(zip(("eps_strong", "relax", "over_interp", "do_trunc", "eps_trunc"), tk[11:16]))
+        damping, solver, side = tk[16], tk[17], tk[18]
+        prm = {}
+        for k, v in zip(kc.PRM_ORDER, tk[19:19 + len(kc.PRM_ORDER)]): prm[k] = F(v) if k in ("tol", "abstol", "damping", "omega", "delta") else int(v)
+        i = 19 + len(kc.PRM_ORDER); n = int(tk[i]); j = i + 2; rows = []
+        for _ in range(n):
+            cnt = int(tk[j]); j += 1
+            rows.append([(int(tk[j + 2 * e]), F(tk[j + 2 * e + 1])) for e in range(cnt)]); j += 2 * cnt
+        scr = " ".join(tk[j:])
+        m.update(obj="amg", coarsening=co, relax=rx, solver=solver, dbl=False)
+        if solver in MODEL_SOLVERS and tk[j + 1] == "dump":
+            m["model"] = dict(co=co, rx=rx, cfg=cfg, allow=allow, cprm=cprm, damping=damping, solver=solver, side=side, prm=prm, n=n, rows=rows, scr=scr)
+    except Exception:
+        pass
+    return m
+
 # ---------------------------------------------------------------- run
 def run(ctx, lines_override=None):
-    if lines_override is not None: cs = [(l, dict(obj=l.split(" ", 2)[1])) for l in lines_override]
+    if lines_override is not None: cs = [(l, meta_from_line(l)) for l in lines_override]
     else: cs = cases(ctx["tier"], ctx["seed"])
     by = {}
     for l, m in cs: by.setdefault(driver_of(l.split(" ", 2)[1]), []).append(l)
@@ -319,5 +388,35 @@ def run(ctx, lines_override=None):
                               oracle=dict(op="reuse", first_differing_call=first, command=(m.get("kinds") or [None] * (first + 1))[first] if first >= 0 and first < len(m.get("kinds") or []) else None),
                               theorem="C15 reuse of objects: call history on ONE %s object vs a FRESH object per call (%s)" % (
                                   what, "double, printed exactly" if op.startswith("d.") else "exact")))
+    # model object: the one-object half of the exact amg / make_solver<amg, S> histories vs the extracted state-passing
+    # model with its state (amg scratch, solver workspace) threaded through the script
+    mcases = []
+    for l, m in cs:
+        if not m.get("model"): continue
+        cid = l.split(" ", 1)[0]; a = impl.get(cid)
+        if a is None or " || " not in a or a.startswith(("EXC", "CRASH")): continue
+        one = a.partition(" || ")[0]
+        if len(one) > MAX_MODEL_OUT: info["model_skipped_too_large"] = info.get("model_skipped_too_large", 0) + 1; continue
+        ml = model_line(cid, m["model"], one)
+        if ml is not None: mcases.append((cid, l, ml, one, m))
+    if mcases:
+        exe = model_exe(ctx)
+        if exe is None:
+            fails.append(dict(kind="broken-model-build", case=None, impl=None, model=ctx.get("_reuse_model_err"), op="msm", size=0, has_input=False,
+                              theorem="Extract_reuse.v / ocaml/reuse model driver does not build"))
+        else:
+            mo = ctx["run_driver"](exe, [x[2] for x in mcases], timeout=TMO)
+            info["model_compared"] = 0
+            for cid, l, ml, one, m in mcases:
+                b = mo.get(cid)
+                ctx["stats"]["oracle_checks"] += 1; info["model_compared"] += 1
+                if b != one:
+                    ctx["stats"]["mismatches"] += 1
+                    pa, pb = one.split(" ; "), (b or "").split(" ; ")
+                    first = next((i for i in range(max(len(pa), len(pb))) if i >= len(pa) or i >= len(pb) or pa[i] != pb[i]), -1)
+                    fails.append(dict(kind="counterexample", case=l, impl=one[:3000], model=(b or "")[:3000], op="reuse-model:" + l.split(" ", 2)[1], size=len(l),
+                                      oracle=dict(op="msm", first_differing_call=first, model_line=ml[:4000]),
+                                      theorem="C15 correspondence: history on ONE make_solver<amg(%s,%s), %s> object vs the extracted state-passing model object "
+                                              "(amg scratch and solver workspace threaded through the script)" % (m["coarsening"], m["relax"], m["solver"])))
     ctx["stats"]["samples"].append(dict(reuse_info=info))
     return fails
